@@ -300,6 +300,20 @@ def run_defs(rng, obs):
        observed=mm.expectation(f, pts, w), expected=R.wmean(fy, w))
     ck(R.close(mm.expected_variance(f, pts, w), R.wvar(fy, w), 1e-8), 'expected_variance is the weighted variance of f')
     ck(R.close(float(mm.expected_std(f, pts, w)), R.wstd(fy, w), 1e-8), 'expected_std is the weighted std of f')
+    if w:
+        # tol: a WEIGHT threshold - points whose weight is <= tol are left out (and nothing else is rounded)
+        tolw = rng.choice([0.15, 0.3, 1.0])
+        keep = [i for i, ww in enumerate(w) if abs(ww) > tolw]
+        if len(keep) >= 2:
+            fk, wk = [fy[i] for i in keep], [w[i] for i in keep]
+            sc_ = rng.choice([1.0, 1e-3])          # (also functions whose values - and moments - are small compared with tol)
+            g = lambda p: sc_ * f(p)
+            gk = [sc_ * v for v in fk]
+            ck(R.close(mm.expectation(g, pts, w, tol=tolw), R.wmean(gk, wk)), 'expectation is the weighted mean of f over the points', tol=tolw, scale=sc_,
+               observed=mm.expectation(g, pts, w, tol=tolw), expected=R.wmean(gk, wk))
+            ck(R.close(mm.expected_variance(g, pts, w, tol=tolw), R.wvar(gk, wk), 1e-8), 'expected_variance is the weighted variance of f', tol=tolw, scale=sc_,
+               observed=mm.expected_variance(g, pts, w, tol=tolw), expected=R.wvar(gk, wk))
+            ck(R.close(float(mm.expected_std(g, pts, w, tol=tolw)), R.wstd(gk, wk), 1e-8), 'expected_std is the weighted std of f', tol=tolw, scale=sc_)
     sy = [v for v, ww in zip(fy, w) if ww > 0] if w else fy
     ck(mm.ess_maximum(f, pts, w) == max(sy), 'ess_maximum is the max of f over points of positive weight', observed=mm.ess_maximum(f, pts, w), expected=max(sy))
     ck(mm.ess_minimum(f, pts, w) == min(sy), 'ess_minimum is the min of f over points of positive weight', observed=mm.ess_minimum(f, pts, w), expected=min(sy))
